@@ -81,6 +81,19 @@ FRAMES = [
                                       0x0a000002))),
 ]
 
+# an entry without any wildcard (it ranks above every wildcarded entry
+# whatever its priority field says): the exact match of FRAMES[0]
+_ex = OM.extract(FRAMES[0][1], FRAMES[0][0])
+MATCHES.append(mk(0, **{k: (int.from_bytes(v, "big") if k in ("nw_src", "nw_dst")
+                            and isinstance(v, bytes) else v)
+                        for k, v in _ex.items()}))
+
+# (the priority field of an entry without wildcards is "not meaningful" in
+#  1.0, and whether two such entries that differ only in it are the same entry
+#  is not something the statement settles: the exact entry always carries the
+#  same priority here)
+EXACT = len(MATCHES) - 1
+
 STATS_REQ = ofwire.enc_message("stats_request", dict(
   xid=0x7777, type=1, flags=0,
   body=dict(match=MATCHES[5], table_id=0xff, out_port=0xffff)))
@@ -351,8 +364,8 @@ def do_case (case, rep):
 def alphabet ():
   A = []
   SFR = OT.FF_SEND_FLOW_REM; CO = OT.FF_CHECK_OVERLAP
-  for mi in (0, 1, 2, 4):
-    for prio in (1, 2):
+  for mi in (0, 1, 2, 4, 6):
+    for prio in ((1, 2) if mi != EXACT else (1,)):
       A.append(["fm", 0, mi, prio, SFR, 0xffff, 3, 0, 0])
       A.append(["fm", 0, mi, prio, SFR, 0xffff, 0, 7, 0])
       A.append(["fm", 0, mi, prio, SFR | CO, 0xffff, 0, 0, 2])
@@ -385,7 +398,9 @@ def gen_random (rng, count, maxlen):
       r = rng.random()
       if r < 0.55:
         cmd = rng.choice([0, 0, 0, 1, 2, 3, 4])
-        ops.append(["fm", cmd, rng.randrange(6), rng.choice([1, 2, 2, 0x8000]),
+        mi = rng.randrange(len(MATCHES))
+        ops.append(["fm", cmd, mi,
+                    1 if mi == EXACT else rng.choice([1, 2, 2, 0x8000, 0, 0xffff]),
                     rng.choice([0, SFR, SFR, SFR | CO, CO]),
                     rng.choice([0xffff, 0xffff, 2, 3]) if cmd in (3, 4)
                     else 0xffff,
@@ -409,7 +424,7 @@ def plan (tier, seed):
             [dict(mode="rand", count=150, maxlen=40, sub=i) for i in range(5)])
   return ([dict(mode="exh", n=2, shard=i, nshards=4) for i in range(4)] +
           [dict(mode="exh", n=3, shard=i, nshards=48) for i in range(48)] +
-          [dict(mode="rand", count=3000, maxlen=60, sub=i) for i in range(16)])
+          [dict(mode="rand", count=8000, maxlen=60, sub=i) for i in range(32)])
 
 
 def run (spec, rep):
